@@ -193,7 +193,19 @@ CasesDef(cls, kt, fmt) ==
   UNION {FieldCases(cls, kt, fmt, i) : i \in 1..Len(Grammar(kt, fmt))}
   \cup {k \in FileCases(fmt) : InPath(cls, kt, fmt, k.stage)}
 CasesOf == [t \in Triples |-> CasesDef(t[1], t[2], t[3])]
-InModel(cls, kt, fmt, k) == <<cls, kt, fmt>> \in Triples /\ k \in CasesOf[<<cls, kt, fmt>>]
+\* the same set as a predicate (cheap to evaluate on one case; TypeOK checks that the two agree on every case met)
+InModel(c, t, f, k) ==
+  /\ <<c, t, f>> \in Triples /\ InPath(c, t, f, k.stage)
+  /\ IF k.idx = 0
+     THEN \/ k.class \in FileCl /\ k.stage = "read" /\ k.pw = PwFit(f)
+          \/ k.class = "intact" /\ k.stage = (IF Enc(f) THEN "passphrase" ELSE "read") /\ k.pw \in PwAll(f)
+     ELSE /\ k.idx \in 1..Len(Grammar(t, f))
+          /\ LET g == Grammar(t, f)[k.idx] IN
+               /\ k.stage = FieldStage(c, g.n, g.l)
+               /\ k.class \in Classes(g.t) \cup Rand
+               /\ \/ k.pw = PwFit(f)
+                  \/ /\ Enc(f) /\ g.l \in {"text", "outer"} /\ k.pw \in {"none", "wrong"}
+                     /\ k.class \in {"trunc_inside", "flip", "rand_flip"}
 
 \* the fixed part of every run of the check, whatever the tier and the seed: the right loader class, every field
 \* of every container cut off inside / swapped with another key's value / with a length running past the end /
